@@ -68,13 +68,17 @@ class Run:
     def violations(self):
         return [o for o in self.obs if not o.ok]
 
-    def finish(self, explanation, level="other", extra_cov=None, write=True):
+    def check_floors(self):
         counts = {}
         for o in self.obs:
             counts[o.rule] = counts.get(o.rule, 0) + 1
         for r, n in self.floors.items():
             if counts.get(r, 0) < n:
                 raise AnalysisError("rule %s matched %d instances, below the confirmed floor %d (anchor vanished or rewritten beyond recognition)" % (r, counts.get(r, 0), n))
+        return counts
+
+    def finish(self, explanation, level="other", extra_cov=None, write=True):
+        counts = self.check_floors()
         known = load_known(self.prop)
         viol = self.violations()
         new = []
